@@ -76,7 +76,12 @@ def dump_ast(tu_text, workdir, flags=None, filt='muscle', repo='/repo', name='tu
         p = subprocess.run(cmd, stdout=fo, stderr=subprocess.PIPE, text=True)
     if p.returncode != 0:
         raise Unsupported('clang failed on the extraction TU: ' + p.stderr[-2000:])
-    return load_ast(out)
+    docs = load_ast(out)
+    LAST_TU['src'], LAST_TU['flags'] = src, (flags or CLANG_FLAGS_CXX11)
+    return docs
+
+
+LAST_TU = {}
 
 
 def san(s):
@@ -103,6 +108,7 @@ ALLOC_RENAMES = {'muscleAlloc': 'mv_muscleAlloc', 'muscleFree': 'free', 'muscleR
 class Lowerer:
     def __init__(self, docs, follow=None, opaque_records=(), stub_records=None, extra_noop=(), rename=None, memberwise=(), vdispatch=(), vstatic=(), flat_idiom=(), member_array_as_pointer=()):
         self.docs = docs
+        self.tu_src, self.tu_flags = LAST_TU.get('src'), LAST_TU.get('flags')
         self.repo = os.environ.get('MV_REPO', '/repo')
         self.byid = {}
         self.parent = {}
@@ -271,6 +277,22 @@ class Lowerer:
         for k, v in self.records.items():
             if k.replace(' ', '') == key or k.replace(' ', '') == 'muscle::' + key:
                 return k, v
+        # template arguments spelled through typedefs (Queue<muscle::MessageRef>): substitute the underlying type
+        if '<' in name and not getattr(self, '_in_targ_subst', False):
+            head, rest = name.split('<', 1)
+            def sub(m):
+                r = self.resolve_typedef(m.group(0))
+                return self._strip_cv(r) if r else m.group(0)
+            self._in_targ_subst = True
+            try:
+                new = head + '<' + re.sub(r'[A-Za-z_][A-Za-z0-9_:]*', sub, rest)
+                if new != name:
+                    for cand in (new, new.replace('>>', '> >')):
+                        k, v = self.find_record(cand)
+                        if v is not None:
+                            return k, v
+            finally:
+                self._in_targ_subst = False
         # clang prints a specialization without its defaulted trailing template arguments
         if key.endswith('>'):
             pre = key[:-1] + ','
@@ -687,6 +709,9 @@ class Lowerer:
         if k in ('CXXConstructExpr', 'CXXTemporaryObjectExpr'):
             while e0.get('elidable') and len(self.children(e0)) == 1 and self.strip(self.children(e0)[0]).get('kind') in ('CXXConstructExpr', 'CXXTemporaryObjectExpr'):
                 e0 = self.strip(self.children(e0)[0])     # copy elision
+            if e0.get('elidable') and len(self.children(e0)) == 1 and self.strip(self.children(e0)[0]).get('kind') in ('CallExpr', 'CXXMemberCallExpr', 'CXXOperatorCallExpr'):
+                # copy elision: the function's return value IS the object being initialised
+                return ['%s = %s;' % (lv, self.expr(self.children(e0)[0]))]
             ctor = self.ctor_of(e0)
             args = self.children(e0)
             if self.is_trivial_copy(e0, ctor, args):
@@ -774,6 +799,15 @@ class Lowerer:
                 out += '  ' * ind + self.dtor_call(lv, t) + '\n'
         return out
 
+    def hoisted(self, fn):
+        saved = (getattr(self, 'pre', None), getattr(self, 'post', None))
+        self.pre, self.post = [], []
+        try:
+            text = fn()
+            return self.pre, text, self.post
+        finally:
+            self.pre, self.post = saved
+
     def stmt(self, n, ind):
         k = n.get('kind')
         I = '  ' * ind
@@ -788,7 +822,16 @@ class Lowerer:
         if k == 'IfStmt':
             if n.get('hasInit') or n.get('hasVar'):
                 raise Unsupported('if with init/var')
-            s = I + 'if (%s)\n' % self.cond(ch[0]) + self.block(ch[1], ind)
+            pre, c, post = self.hoisted(lambda: self.cond(ch[0]))
+            if pre or post:
+                self.tmpn += 1
+                cv = '__c%d' % self.tmpn
+                s = I + '{\n' + ''.join(I + '  ' + l + '\n' for l in pre) + I + '  _Bool %s = ((%s) != 0);\n' % (cv, c) + ''.join(I + '  ' + l + '\n' for l in post)
+                s += I + '  if (%s)\n' % cv + self.block(ch[1], ind + 1)
+                if len(ch) > 2:
+                    s += I + '  else\n' + self.block(ch[2], ind + 1)
+                return s + I + '}\n'
+            s = I + 'if (%s)\n' % c + self.block(ch[1], ind)
             if len(ch) > 2:
                 s += I + 'else\n' + self.block(ch[2], ind)
             return s
@@ -816,7 +859,13 @@ class Lowerer:
                 out += self.vardecl(v, ind)
             return out
         if k == 'WhileStmt':
-            c = self.cond(ch[0])
+            pre, c, post = self.hoisted(lambda: self.cond(ch[0]))
+            if pre or post:
+                # condition with full-expression temporaries: evaluated (and its temporaries destroyed) at the top of every iteration
+                self.tmpn += 1
+                cv = '__c%d' % self.tmpn
+                head = ''.join(I + '    ' + l + '\n' for l in pre) + I + '    _Bool %s = ((%s) != 0);\n' % (cv, c) + ''.join(I + '    ' + l + '\n' for l in post) + I + '    if (!%s) break;\n' % cv
+                return I + 'while (1)\n' + self.loop_contract(c, ind) + I + '  {\n' + head + self.loop_body(ch[1], ind + 2) + I + '  }\n'
             return I + 'while (%s)\n' % c + self.loop_contract(c, ind) + self.loop_body(ch[1], ind)
         if k == 'DoStmt':
             body = self.loop_body(ch[0], ind)
@@ -828,9 +877,26 @@ class Lowerer:
             out = I + '{\n'
             if init.get('kind'):
                 out += self.stmt(init, ind + 1)
-            c = self.cond(cond) if cond.get('kind') else '1'
-            i_ = self.expr(inc) if inc.get('kind') else ''
-            out += I + '  for (; %s; %s)\n' % (c, i_) + self.loop_contract(c, ind + 1) + self.loop_body(body, ind + 1)
+            pre, c, post = self.hoisted(lambda: self.cond(cond)) if cond.get('kind') else ([], '1', [])
+            ipre, i_, ipost = self.hoisted(lambda: self.expr(inc)) if inc.get('kind') else ([], '', [])
+            if pre or post or ipre or ipost:
+                # temporaries in the condition or the increment: `for(;;){ cond; if(!c) break; body; continue-label: inc; }`
+                self.tmpn += 1
+                cv, lab = '__c%d' % self.tmpn, '__continue%d' % self.tmpn
+                head = ''.join(I + '      ' + l + '\n' for l in pre) + I + '      _Bool %s = ((%s) != 0);\n' % (cv, c) + ''.join(I + '      ' + l + '\n' for l in post) + I + '      if (!%s) break;\n' % cv
+                lc = self.loop_contract(c, ind + 1)      # ordinal in source order: before the body's loops
+                self.continue_label = getattr(self, 'continue_label', []) + [lab]
+                b = self.loop_body(body, ind + 3)
+                self.continue_label = self.continue_label[:-1]
+                tail = I + '      %s: ;\n' % lab + (I + '      {\n' + ''.join(I + '        ' + l + '\n' for l in ipre) + I + '        ' + i_ + ';\n' + ''.join(I + '        ' + l + '\n' for l in ipost) + I + '      }\n' if i_ else '')
+                out += I + '  for (;;)\n' + lc + I + '    {\n' + head + b + tail + I + '    }\n'
+                out += self.end_scope(ind + 1)
+                return out + I + '}\n'
+            lc = self.loop_contract(c, ind + 1)
+            self.continue_label = getattr(self, 'continue_label', []) + [None]
+            lb = self.loop_body(body, ind + 1)
+            self.continue_label = self.continue_label[:-1]
+            out += I + '  for (; %s; %s)\n' % (c, i_) + lc + lb
             out += self.end_scope(ind + 1)
             return out + I + '}\n'
         if k == 'NullStmt':
@@ -838,6 +904,9 @@ class Lowerer:
         if k == 'BreakStmt':
             return self.unwind_to(self.loop_depth[-1], ind) + I + 'break;\n'
         if k == 'ContinueStmt':
+            lab = (getattr(self, 'continue_label', None) or [None])[-1]
+            if lab:
+                return self.unwind_to(self.loop_depth[-1], ind) + I + 'goto %s;\n' % lab
             return self.unwind_to(self.loop_depth[-1], ind) + I + 'continue;\n'
         if k == 'SwitchStmt':
             if not hasattr(self, 'loop_depth'):
@@ -1186,6 +1255,9 @@ class Lowerer:
         # position in the enum
         p = self.parent.get(rd['id'])
         if p is None:
+            v = self.global_enum_value(rd.get('name'))
+            if v is not None:
+                return '(%s)' % v
             raise Unsupported('enum constant %s without value' % rd.get('name'))
         val = -1
         for c in p.get('inner', []) or []:
@@ -1196,6 +1268,34 @@ class Lowerer:
             if c['id'] == rd['id']:
                 return '(%d)' % val
         raise Unsupported('enum constant value')
+
+    def global_enum_value(self, name):
+        """enum constants declared outside namespace muscle are not in the filtered AST: ask clang for that one declaration"""
+        src = getattr(self, 'tu_src', None)
+        if not src or not re.match(r'^[A-Za-z_][A-Za-z0-9_]*$', name or ''):
+            return None
+        cache = self.__dict__.setdefault('_genum', {})
+        if name in cache:
+            return cache[name]
+        cmd = ['clang++'] + (getattr(self, 'tu_flags', None) or CLANG_FLAGS_CXX11) + ['-I', self.repo, '-fsyntax-only', '-Wno-everything', '-Xclang', '-ast-dump=json',
+                                                                                   '-Xclang', '-ast-dump-filter=' + name, src]
+        p = subprocess.run(cmd, stdout=subprocess.PIPE, stderr=subprocess.PIPE, text=True)
+        val = None
+        dec = json.JSONDecoder()
+        txt, i = p.stdout, 0
+        while i < len(txt) and val is None:
+            j = txt.find('{', i)
+            if j < 0:
+                break
+            try:
+                o, k = dec.raw_decode(txt, j)
+            except ValueError:
+                break
+            i = k
+            if o.get('kind') == 'EnumConstantDecl' and o.get('name') == name:
+                val = self._find_value(o)
+        cache[name] = val
+        return val
 
     def use_global(self, v):
         nm = self.global_name(v)
